@@ -23,7 +23,10 @@ type Taint struct {
 	StopCall func(site ssa.CallInstruction, arg ssa.Value) bool
 	// FollowField: whether a store into this struct field taints all loads of the field.
 	FollowField func(fv *types.Var) bool
-	Hits        []TaintHit
+	// Scope, when set, confines the flow to these functions (no parameter binding into, and no
+	// return to, functions outside it).
+	Scope func(fn *ssa.Function) bool
+	Hits  []TaintHit
 	work        []ssa.Value
 	fieldT      map[*types.Var]string
 	hitSeen     map[ssa.Instruction]bool
@@ -131,6 +134,9 @@ func (t *Taint) Run() {
 						if !ok {
 							continue
 						}
+						if t.Scope != nil && !t.Scope(site.Parent()) {
+							continue
+						}
 						w := why + " → returned by " + shortName(fn)
 						if fn.Signature.Results().Len() == 1 {
 							t.Seed(cv, w)
@@ -188,6 +194,9 @@ func (t *Taint) call(site ssa.CallInstruction, v ssa.Value, why string) {
 			continue
 		}
 		toModule = true
+		if t.Scope != nil && !t.Scope(callee) {
+			continue
+		}
 		for ai, a := range args {
 			if a == v && ai < len(callee.Params) {
 				t.Seed(callee.Params[ai], fmt.Sprintf("%s → passed to %s at %s", why, shortName(callee), t.p.instrPos(site)))
